@@ -737,6 +737,22 @@ func init() {
 		reg(n, intrNoop)
 	}
 
+	reg("context.WithValue", func(m *Machine, th *Thread, fn *ssa.Function, a []Value) (Value, bool) {
+		parent, key := a[0].(IfaceV), a[1].(IfaceV)
+		if parent.t == nil {
+			m.goPanic("cannot create context from nil parent")
+		}
+		if key.t == nil {
+			m.goPanic("nil key")
+		}
+		if !types.Comparable(key.t) {
+			m.goPanic("key is not comparable")
+		}
+		t := m.p.pkgs["context"].Type("valueCtx").Type()
+		c := &Cell{v: StructV{f: []*Cell{{v: parent}, {v: key}, {v: a[2]}}}}
+		return IfaceV{t: types.NewPointer(t), v: c}, true
+	})
+
 	// ---------- natives on concrete data ----------
 	reg("sort.Strings", func(m *Machine, th *Thread, fn *ssa.Function, a []Value) (Value, bool) {
 		s := a[0].(SliceV)
